@@ -63,9 +63,11 @@ CLAIMS = {
              "wrapped parser's body runs at most once per position and every completed run is answered from the cache afterwards "
              "(c03_once, c03_completed_is_cached, c03_no_curtail); repeating a parse reproduces results, errors, call count and log "
              "for any fuel (c03_deterministic) and under any order-preserving renumbering of parser indexes (c03_index_renaming: a "
-             "re-built grammar). PARTIAL on one link: that a left-recursion-free grammar never curtails or re-enters (NoCurtail / "
-             "NoReentry, decidable on the ghost log) is not proved syntactically; the correspondence run checks it on every generated "
-             "LRF grammar. c03_parse_message_not_transparent documents that the TEXT of Parse's message may differ (same position), "
+             "re-built grammar). The semantic hypotheses are DISCHARGED syntactically in Props/C03L.lean: for every grammar accepted by "
+             "the decidable left-recursion-freeness certificate lrf (= wf plus: no Memoize operand can reach its own index at its "
+             "start position) nothing is ever curtailed and no body re-entered (c03_lrf_no_reentry), hence c03_transparent_lrf, "
+             "c03_once_lrf with no hypothesis on the run; the certificate is tied to the generator's by the stream C03L (Go's "
+             "wellFormed(all) vs Lean's lrf, both directions). c03_parse_message_not_transparent documents that the TEXT of Parse's message may differ (same position), "
              "which the property does not claim.",
         note="rtrim over a memoized parser is outside the harness's C03 domain (known finding D5: in-place mutation, invisible in the value-level model).",
         technique="Lean 4 two-run simulation proof (induction on fuel with a cache invariant) + unary invariants on the ghost log + differential correspondence (memoized vs stripped vs model, probe counters under each Memoize)"),
